@@ -242,6 +242,9 @@ recurseTail:
 
 	intp.NumOps++
 	if intp.MaxOps > 0 && intp.NumOps > intp.MaxOps {
+		// further calls on an interpreter that has used up its budget
+		// must not count past MaxOps+1
+		intp.NumOps = intp.MaxOps + 1
 		return ErrExecutionLimitExceeded
 	}
 
